@@ -276,7 +276,7 @@ def gen_history(rng, name):
         path, d = [], model
         for lv in range(depth):
             keys = list(d.keys()) if isinstance(d, dict) else []
-            k = str(gens.pick(rng, keys)) if keys and rng.random() < .8 else 'new%d' % rng.integers(0, 3)
+            k = str(gens.pick(rng, keys)) if keys and rng.random() < .8 else gens.pick(rng, ['new%d', 'new.%d', 'new-%d_x']) % rng.integers(0, 3)
             path.append(k)
             d = d.get(k) if isinstance(d, dict) and isinstance(d.get(k), dict) else {}
         op = gens.pick(rng, ['set', 'set', 'set_nested', 'get', 'del', 'len', 'iter'])
